@@ -4,7 +4,7 @@
 //@source tenant src/persistence/tenant.rs
 //@source wal src/persistence/wal.rs
 //@source sm src/raft/state_machine.rs
-//@rules D2 R1
+//@rules D2 R1 R19
 #![feature(allocator_api)]
 #![allow(unused_imports, unused_variables, unused_mut, dead_code)]
 use vstd::prelude::*;
@@ -46,6 +46,13 @@ impl PropertyMap {
     #[verifier::external_body] pub fn len(&self) -> usize { unimplemented!() }
     #[verifier::external_body] pub fn contains_key(&self, k: &str) -> bool { unimplemented!() }
 }
+/// R19: `dst.extend(src.iter().map(|(k, v)| (k.clone(), v.clone())))` on property maps (wrapper; body = the original statement):
+/// dst gains src's entries, src's value winning on a shared key -- some function of the two maps, in general NOT src
+pub uninterp spec fn props_extended(dst: PropertyMap, src: PropertyMap) -> PropertyMap;
+#[verifier::external_body]
+pub fn map_extend_cloned(dst: &mut PropertyMap, src: &PropertyMap)
+    ensures *final(dst) == props_extended(*old(dst), *src)
+{ unimplemented!() }
 /// a label / an edge type is determined by its text
 pub uninterp spec fn label_of(t: Seq<char>) -> Label;
 pub uninterp spec fn edge_type_of(t: Seq<char>) -> EdgeType;
